@@ -360,6 +360,14 @@ def main_for(prop: str, body, argv=None):
     ap.add_argument("--replay", default=None)
     a = ap.parse_args(argv)
     seed = int(os.environ.get("VERIF_SEED", "0") or 0)
+    replay = None
+    if a.replay:
+        # every case is generated deterministically from (property, seed, tier): replaying a
+        # violation means re-running the check with the seed and tier recorded in the replay file
+        replay = json.loads(Path(a.replay).read_text())
+        seed = int(replay.get("seed", seed))
+        a.tier = replay.get("tier", a.tier)
+        print(f"replaying {a.replay}: property={replay.get('property')} stream={replay.get('stream')} seed={seed} tier={a.tier}")
     ctx = Ctx(prop, a.tier, seed)
     try:
         lean_build()
@@ -372,10 +380,7 @@ def main_for(prop: str, body, argv=None):
             if not ok:
                 raise MachineryError("leanchecker rejected the property modules:\n" + msg)
             ctx.notes["leanchecker"] = "accepted"
-        if a.replay:
-            ctx.replay = json.loads(Path(a.replay).read_text())
-        else:
-            ctx.replay = None
+        ctx.replay = replay
         body(ctx)
         return ctx.finish(ob, dis, axioms)
     except MachineryError as e:
